@@ -173,7 +173,7 @@ def run_infer(sk, ctx_vars):
         except infertype.TypeInferenceException as e:
             return None, 'TypeInferenceException', e.err.split('\n')[0][:60]
         except RecursionError:
-            raise
+            return None, 'RecursionError', 'maximum recursion depth exceeded (undetected cycle)'
         except Exception as e:
             return None, type(e).__name__, repr(e)[:200]
 
@@ -260,6 +260,11 @@ def run_check(tier, seed):
         ('omega', lambda: Comb(Abs('y', None, Comb(Bound(0), Bound(0))), Abs('y', None, Comb(Bound(0), Bound(0))))),
         ('cycle through two variables', lambda: Comb(Comb(Const('equals', None), Comb(f(), x())), Comb(x(), f()))),
         ('declared clash', lambda: Comb(Const('neg', None), Var('n', None))),
+        ('indirect cycle f g, g h, h f', lambda: Comb(Comb(Const('conj', None), Comb(Comb(Const('equals', None), Comb(Var('f', None), Var('g', None))), Const('zero', TConst('nat')))),
+                                                       Comb(Comb(Const('conj', None), Comb(Comb(Const('equals', None), Comb(Var('g', None), Var('h', None))), Const('zero', TConst('nat')))),
+                                                            Comb(Comb(Const('equals', None), Comb(Var('h', None), Var('f', None))), Const('zero', TConst('nat')))))),
+        ('indirect cycle through two', lambda: Comb(Comb(Const('conj', None), Comb(Comb(Const('equals', None), Comb(Var('f', None), Var('g', None))), Const('true', None))),
+                                                     Comb(Comb(Const('equals', None), Comb(Var('g', None), Var('f', None))), Const('true', None)))),
     ]
     for name, mk in bad:
         for ctx in ({}, {'n': natT}, {'x': natT}):
